@@ -33,8 +33,11 @@ RULE = ("PIN sweep: the compared secret at boundary values (0000, 0001, 9999) an
         "wrong PIN, dropped reply, garbage frame/body, each required field missing, disconnect), plus the fault-free "
         "run; non-trivial = a fault was injected after at least one successful reply or the run is fault-free; "
         "initial state: (service.credentials, settings credentials) over {none, A, B}^2 - quick tier: NN and AA in "
-        "full, one fault per await point (alternating connection/pairing class) for the seven others; thorough: "
-        "all nine in full; faults inside sealed sub-messages (pair-setup M6, pair-verify M2): each required inner "
+        "full, one fault per await point (alternating connection/pairing class) for NA, AN, AB and one seed-chosen "
+        "other combination; thorough: all nine in full; malformed VALUES of every inner field (empty, proper prefix, "
+        "extended; edited in the sealed plaintext and, for identifier / long-term key, reported consistently by the "
+        "device); operation sequences on one handler (pin() twice, finish() after a failed finish(), begin() twice; "
+        "DMAP: scripted and random sequences of pin()/request/finish() with boundary PINs); faults inside sealed sub-messages (pair-setup M6, pair-verify M2): each required inner "
         "field missing, empty and garbage plaintext, sealed correctly by the fake device; "
         "distinct = (handler, initial state, index, kind, variant)")
 ASSUMPTIONS = [
@@ -433,7 +436,35 @@ def variants_for(reply, is_proof_reply):
         out.append(("missing", "inner:" + field))
     if reply.label in INNER_FIELDS:
         out += [("missing", "inner:all"), ("garbage", "inner")]
+    # malformed VALUES of the inner fields: empty, truncated (proper prefix), extended.  "inner:" =
+    # only the sealed plaintext is edited (the signature inside is stale); "device:" = the fake
+    # device itself reports the malformed identifier / public key, so everything it signs and
+    # seals is consistent with it.  (A different well-formed value is C06's subject, not a fault.)
+    for field in INNER_FIELDS.get(reply.label, []):
+        for shape in SHAPES:
+            out.append(("garbage", "inner:%s=%s" % (field, shape)))
+            if field == "signature":
+                continue
+            if reply.label == "setup:m6" and field == "identifier" and shape != "empty":
+                continue    # a device consistently using another non-empty name is another identity, no fault
+            out.append(("garbage", "device:%s=%s" % (field, shape)))
     return out
+
+
+SHAPES = ["empty", "prefix", "extended"]
+
+
+def is_value_variant(variant):
+    return "=" in str(variant)
+
+
+def reshape(value, shape, rng):
+    value = bytes(value)
+    if shape == "empty":
+        return b""
+    if shape == "prefix":
+        return value[: max(1, len(value) // 2)] if len(value) > 1 else b""
+    return value + rng.bytes_(rng.randrange(1, 5))
 
 
 # Replies whose EncryptedData is a sealed sub-TLV, the fields the HAP specification requires
@@ -450,6 +481,11 @@ def mutate_inner(plain, variant, rng):
     if variant == "inner":
         return _garbage_tlv(rng, list(tags.values()))
     field = variant.split(":", 1)[1]
+    if "=" in field:
+        field, shape = field.split("=")
+        tlv = read_tlv(plain)
+        tlv[tags[field]] = reshape(tlv.get(tags[field], b""), shape, rng)
+        return write_tlv(tlv)
     if field == "all":
         return b""
     tlv = read_tlv(plain)
@@ -500,11 +536,31 @@ class World:
         self.injected = False
         self.inverted = False         # DMAP: the handler is the listening side
         self.inner = bool(fault and str(fault[2]).startswith("inner"))
+        self.device = bool(fault and str(fault[2]).startswith("device:"))
         self.inner_done = False
+        self._restore = None
 
     def on_client_write(self, link, data):
         if not self.inverted:
             self.events.append("send")
+        if self.device and not self.inner_done and len(self.replies) + 1 == self.fault[0]:
+            self._malform_device(link.protos["s"])
+
+    def _malform_device(self, proto):
+        """The fake device reports a malformed identifier / long-term public key while it builds
+        the reply with the fault's index (and signs / seals consistently with it)."""
+        peer = getattr(proto, "handler", proto)          # BasicHttpServer -> FakeAirPlayService
+        field, shape = self.fault[2].split(":", 1)[1].split("=")
+        self.inner_done = True
+        if field == "identifier":
+            orig = peer.unique_id
+            peer.unique_id = reshape(orig, shape, self.rng)
+            self._restore = lambda: setattr(peer, "unique_id", orig)
+        else:
+            had = "keys" in peer.__dict__
+            orig = peer.keys
+            peer.keys = orig._replace(auth_pub=reshape(orig.auth_pub, shape, self.rng))
+            self._restore = (lambda: setattr(peer, "keys", orig)) if had else (lambda: peer.__dict__.pop("keys", None))
 
     def on_server_write(self, link, data):
         if self.inverted:
@@ -524,7 +580,10 @@ class World:
         """Register one reply of the device; returns "pass" or what to deliver instead."""
         idx = len(self.replies) + 1
         self.replies.append(reply)
-        if self.fault and self.fault[0] == idx and self.inner:
+        if self._restore is not None:
+            self._restore()
+            self._restore = None
+        if self.fault and self.fault[0] == idx and (self.inner or self.device):
             self.injected = self.inner_done      # the sub-message was altered before sealing
             self.events.append("fault")
             return "pass"
@@ -675,7 +734,7 @@ def _err_class(exc):
     return "other:" + type(exc).__name__
 
 
-async def _pair_client(name, prior, fault, world, loop, pins=None):
+async def _pair_client(name, prior, fault, world, loop, pins=None, ops=None):
     """begin(); pin(); finish() on the real handler obtained from pyatv.pair()."""
     import pyatv
     from pyatv.conf import AppleTV, ManualService
@@ -723,18 +782,37 @@ async def _pair_client(name, prior, fault, world, loop, pins=None):
         del world.events[:]
         obs["paired_before"] = bool(handler.has_paired)
         exc, where = None, None
-        try:
-            await handler.begin()
-        except Exception as ex:  # observation
-            exc, where = ex, "begin"
-        obs["paired_mid"] = bool(handler.has_paired)
-        obs["svc_mid"] = service.credentials
-        if exc is None:
-            handler.pin(pin)
+        if ops is not None:
+            # an explicit sequence of operations on the one handler object
+            steps = obs["steps"] = []
+            for op in ops:
+                exc, where = None, op[0]
+                try:
+                    if op[0] == "begin":
+                        await handler.begin()
+                    elif op[0] == "pin":
+                        handler.pin(good_pin if op[1] == "right" else bad_pin if op[1] == "wrong" else op[1])
+                    elif op[0] == "finish":
+                        await handler.finish()
+                except Exception as ex:  # observation
+                    exc = ex
+                steps.append({"op": list(op), "err": _err_class(exc), "exc_name": type(exc).__name__ if exc else None,
+                              "paired": bool(handler.has_paired), "svc": service.credentials,
+                              "settings": getattr(settings.protocols, slot).credentials,
+                              "replies": len(world.replies)})
+        else:
             try:
-                await handler.finish()
+                await handler.begin()
             except Exception as ex:  # observation
-                exc, where = ex, "finish"
+                exc, where = ex, "begin"
+            obs["paired_mid"] = bool(handler.has_paired)
+            obs["svc_mid"] = service.credentials
+            if exc is None:
+                handler.pin(pin)
+                try:
+                    await handler.finish()
+                except Exception as ex:  # observation
+                    exc, where = ex, "finish"
         obs.update(exc=exc, where=where, err=_err_class(exc), exc_name=type(exc).__name__ if exc else None,
                    exc_text=str(exc)[:160] if exc else None,
                    paired=bool(handler.has_paired), svc=service.credentials,
@@ -751,13 +829,13 @@ async def _pair_client(name, prior, fault, world, loop, pins=None):
     return obs
 
 
-def run_one(name, prior, fault, rng, pins=None):
+def run_one(name, prior, fault, rng, pins=None, ops=None):
     """Execute one case on the real code; returns the observation dict (never raises for
     exceptions of the code under test).  `pins` = (PIN of the device as 4-digit string, PIN
     handed to handler.pin()) or None for the fake devices' defaults; for DMAP
     (PIN handed to handler.pin(), pairing code the device sends: ("pin", n) | ("raw", text))."""
     if name == "dmap":
-        return run_dmap(prior, fault, rng, pins)
+        return run_dmap(prior, fault, rng, pins, ops)
     codec = CONFIGS[name][2]()
     world = World(codec, fault, rng)
     loop = PipeLoop(world)
@@ -765,7 +843,7 @@ def run_one(name, prior, fault, rng, pins=None):
 
     async def main():
         loop.listeners[PORT] = _peer_factory(name, loop, state_box, pins[0] if pins else None)
-        return await _pair_client(name, prior, fault, world, loop, pins)
+        return await _pair_client(name, prior, fault, world, loop, pins, ops)
 
     logging.disable(logging.CRITICAL)
     unhook = _hook_sealing(world) if world.inner else (lambda: None)
@@ -899,7 +977,7 @@ async def _dmap_device(loop, world, port, fault, rng, pins=None):
     return status
 
 
-def run_dmap(prior, fault, rng, pins=None):
+def run_dmap(prior, fault, rng, pins=None, ops=None):
     codec = type("DmapCodec", (), {"name": "dmap", "wire": True, "decode": staticmethod(lambda d: Reply("dmap", "http-response"))})()
     world = World(codec, None, rng)     # the pipe itself injects nothing; the device script does
     world.inverted = True
@@ -938,7 +1016,25 @@ def run_dmap(prior, fault, rng, pins=None):
                 world.events.append("listen")
             except Exception as ex:
                 exc, where = ex, "begin"
-            if exc is None:
+            if exc is None and ops is not None:
+                steps = obs["steps"] = []
+                for op in ops:
+                    exc, where, status = None, op[0], None
+                    try:
+                        if op[0] == "pin":
+                            handler.pin(op[1])
+                        elif op[0] == "request":
+                            port = zeroconf.registered_services[0].port if zeroconf.registered_services else None
+                            status = await _dmap_device(loop, world, port, None, rng, (None, op[1]))
+                        elif op[0] == "finish":
+                            await handler.finish()
+                    except Exception as ex:
+                        exc = ex
+                    steps.append({"op": [op[0], list(op[1]) if isinstance(op[1:], tuple) and len(op) > 1 and isinstance(op[1], (tuple, list)) else (op[1] if len(op) > 1 else None)],
+                                  "err": _err_class(exc), "exc_name": type(exc).__name__ if exc else None,
+                                  "status": status, "paired": bool(handler.has_paired), "svc": service.credentials,
+                                  "settings": settings.protocols.dmap.credentials})
+            elif exc is None:
                 handler.pin(DMAP_PIN if pins is None else pins[0])
                 port = zeroconf.registered_services[0].port if zeroconf.registered_services else None
                 obs["device"] = await _dmap_device(loop, world, port, fault, rng, pins)
@@ -1179,12 +1275,30 @@ def run(ctx, only=None):
     lines, pending = [], []
     reps = ctx.scale(1, 3)
     ids = {"N": "0", "A": "1", "B": "2"}
+    extra = ctx.rng.fork("combos").choice(["NB", "BN", "BA", "BB"])
     for name in HANDLERS:
         for prior in PRIOR_COMBOS:
             if only is not None and (name, norm_prior(only["prior"])) != (only["handler"], prior):
                 continue
+            if only is None and not ctx.thorough and prior not in ("NN", "AA", "NA", "AN", "AB", extra):
+                continue
             full = ctx.thorough or prior in ("NN", "AA")
             script = script_name(name, prior)
+            if only is not None and only.get("ops") is not None:
+                ops = [tuple(tuple(x) if isinstance(x, list) else x for x in o) for o in only["ops"]]
+                obs = run_one(name, prior, None, ctx.rng.fork("seq", name, repr(ops)), ops=ops)
+                check_steps(ctx, name, prior, ops, obs)
+                if name == "dmap":
+                    cur = None
+                    for o, st in zip(ops, obs.get("steps") or []):
+                        if o[0] == "pin":
+                            cur = o[1]
+                        elif o[0] == "request":
+                            ok = str(st.get("status", "")).split(" ")[1:2] == ["200"]
+                            if ok != (cur is None or (o[1][0] == "pin" and o[1][1] == cur)):
+                                seq_fail(ctx, name, prior, ops, "wrong-code-accepted" if ok else "right-code-refused",
+                                         "request judged against a PIN that was not current", obs.get("steps") or [])
+                continue
             if only is not None:
                 base, faults = fault_space(name, prior, ctx.rng.fork(name, prior))
                 fault = None if only["index"] is None else (only["index"], only["kind"], only["variant"])
@@ -1212,6 +1326,10 @@ def run(ctx, only=None):
                 pending.append(("app", dict(case, index=i), want))
             # --- every await point x every applicable fault kind / variant (quick tier: in full for
             #     the initial states NN and AA, one fault per await point for the seven others)
+            if (not ctx.thorough and prior == "NN") or (ctx.thorough and prior not in ("NN", "AA", "AB", "BA")):
+                # faults inside sealed sub-messages: quick tier with stored credentials (AA) only,
+                # thorough tier for the initial states NN, AA, AB, BA
+                faults = [f for f in faults if not str(f[2]).startswith(("inner", "device:"))]
             for fault in (faults if full else reduced_faults(ctx, name, prior, faults)):
                 nrep = reps if (fault[1] == "garbage" and full) else 1
                 for rep in range(nrep):
@@ -1226,6 +1344,7 @@ def run(ctx, only=None):
     if only is not None:
         return
     pin_sweep(ctx, lines, pending)
+    sequence_sweep(ctx, lines, pending)
     # --- error_handler itself: what class reaches the caller for each kind of inner failure
     for kind, cls in probe_error_handler():
         lines.append("errclass handler " + kind)
@@ -1288,6 +1407,8 @@ def pin_sweep(ctx, lines, pending):
             for pin in pin_values(ctx, name):
                 dev = "%04d" % pin
                 plans = [(None, (dev, pin), pin), (None, (dev, dev), pin)]
+                if not ctx.thorough:
+                    plans = plans[pin % 2:][:1]      # quick tier: 0000 / random typed as int, 0001 / 9999 as string
                 wrongs = wrong_pins(ctx, name, pin)
                 for j, w in enumerate(wrongs):
                     typed = ("%04d" % w) if j == len(wrongs) - 1 else w
@@ -1316,6 +1437,140 @@ def pin_sweep(ctx, lines, pending):
                 ctx.note("pin:" + ("boundary" if pin in (0, 1, 9999) else "other") + (":" + fault[1] if fault else ":right"))
                 lines.append(line)
                 pending.append(("run", case, canon_obs(obs)))
+
+
+# ------------------------------------------------------------------------------------------
+# sequences of operations on ONE handler object
+# ------------------------------------------------------------------------------------------
+def seq_fail(ctx, name, prior, ops, tag, text, steps, fault=None):
+    case = {"handler": name, "prior": prior, "index": fault[0] if fault else None, "kind": fault[1] if fault else None,
+            "variant": fault[2] if fault else None, "message": "sequence", "rep": 0,
+            "ops": [list(o) if not isinstance(o, list) else o for o in ops]}
+    ctx.fail("%s:sequence:%s:%s" % (name, "+".join(o[0] for o in ops), tag), case,
+             [{k: st.get(k) for k in ("op", "err", "exc_name", "status", "paired")} for st in steps],
+             "after any sequence of pin()/begin()/finish()/requests: credentials written and has_paired only through "
+             "a completed exchange with the PIN current at that time; a failing call raises and changes nothing", text)
+
+
+def check_steps(ctx, name, prior, ops, obs, fault=None, expect_last=None):
+    """Property invariants over a sequence (no model involved): a call that raises leaves
+    everything as it was before the call (has_paired false unless an earlier call of this very
+    sequence had succeeded); credentials / has_paired appear only at a finish() that returned
+    (DMAP: has_paired at an accepted request); the three places agree after a success."""
+    steps = obs.get("steps")
+    if obs.get("harness_error") or steps is None:
+        seq_fail(ctx, name, prior, ops, "harness-error", str(obs.get("harness_error")), steps or [], fault)
+        return
+    old, old_settings = obs.get("prior"), obs.get("prior_settings")
+    prev = {"paired": False, "svc": old, "settings": old_settings}
+    for st in steps:
+        opname = st["op"][0]
+        changed = [k for k in ("paired", "svc", "settings") if st[k] != prev[k]]
+        if st["err"] is not None:
+            if st["err"] not in ("pairing", "connection"):
+                seq_fail(ctx, name, prior, ops, "error-class:" + str(st["exc_name"]),
+                         "%s() raised %s: not a pairing or connection error" % (opname, st["exc_name"]), steps, fault)
+            if changed:
+                seq_fail(ctx, name, prior, ops, "failed-call-changed-state",
+                         "%s() raised but changed %s" % (opname, changed), steps, fault)
+        elif changed:
+            legit = (opname == "finish") or (name == "dmap" and opname == "request" and changed == ["paired"]
+                                             and str(st.get("status", "")).split(" ")[1:2] == ["200"])
+            if not legit:
+                seq_fail(ctx, name, prior, ops, "state-changed-outside-finish",
+                         "%s changed by %s" % (changed, opname), steps, fault)
+            if opname == "finish" and not (st["paired"] and st["svc"] and st["svc"] == st["settings"]
+                                           and st["svc"] not in (old, old_settings)):
+                seq_fail(ctx, name, prior, ops, "inconsistent-success",
+                         "finish() returned: has_paired=%s service=%r settings=%r" % (st["paired"], st["svc"], st["settings"]),
+                         steps, fault)
+        prev = {k: st[k] for k in prev}
+    last = steps[-1] if steps else None
+    if expect_last == "success" and last is not None and not (last["err"] is None and last["paired"] and last["svc"] not in (None, old)):
+        seq_fail(ctx, name, prior, ops, "right-pin-failed", "the exchange with the right PIN did not pair: %s %s" % (last["err"], last["exc_name"]), steps, fault)
+    if expect_last == "failure" and last is not None and not (last["err"] in ("pairing", "connection") and not last["paired"]
+                                                              and last["svc"] == old and last["settings"] == old_settings):
+        seq_fail(ctx, name, prior, ops, "wrong-pin-accepted", "the exchange with a wrong PIN current at finish() did not fail cleanly", steps, fault)
+
+
+def sequence_sweep(ctx, lines, pending):
+    prior = "AB"
+    # --- MRP / Companion / AirPlay / RAOP: pin() twice, finish() after a failed finish(), begin() twice
+    for name in [h for h in HANDLERS if h != "dmap"]:
+        script = script_name(name, prior)
+        plans = [
+            ([("begin",), ("pin", "wrong"), ("pin", "right"), ("finish",)], None, "success"),
+            ([("begin",), ("pin", "right"), ("pin", "wrong"), ("finish",)], None, "failure"),
+            ([("begin",), ("pin", "wrong"), ("finish",), ("pin", "right"), ("finish",)], None, None),
+            ([("begin",), ("pin", "wrong"), ("finish",), ("finish",)], None, None),
+            ([("begin",), ("begin",), ("pin", "right"), ("finish",)], None, None),
+        ]
+        if ctx.thorough:
+            plans += [([("begin",), ("pin", "right"), ("finish",), ("finish",)], None, None),
+                      ([("begin",), ("pin", "right"), ("finish",), ("begin",), ("pin", "wrong"), ("finish",)], None, None),
+                      ([("pin", "right"), ("finish",), ("begin",), ("pin", "right"), ("finish",)], None, None)]
+        for ops, fault, expect in plans:
+            obs = run_one(name, prior, fault, ctx.rng.fork("seq", name, repr(ops)), ops=ops)
+            check_steps(ctx, name, prior, ops, obs, fault, expect)
+            ctx.case(["seq", name, [list(o) for o in ops]], True, sample={"handler": name, "ops": [list(o) for o in ops],
+                     "results": [(st["op"][0], st["err"], st["paired"]) for st in obs.get("steps", [])]})
+            ctx.note("sequence:" + "+".join(o[0] for o in ops))
+            if expect is not None and obs.get("steps"):
+                last = obs["steps"][-1]
+                good, bad = _pins(name)
+                typed = good if ops[-2][1] == "right" else bad
+                o2 = dict(obs, err=last["err"], paired=last["paired"], svc=last["svc"])
+                o2["settings"] = dict(obs.get("settings") or {}, **{obs["slot"]: last["settings"]})
+                lines.append("runpin %s %d %d" % (script, good, typed))
+                pending.append(("run", {"handler": name, "ops": [list(o) for o in ops]}, canon_obs(o2)))
+    # --- DMAP: pin() several times, requests in between, finish() repeatedly
+    rng = ctx.rng.fork("seq", "dmap")
+    pins = pin_values(ctx, "dmap-seq")
+    seqs = []
+    for a in pins[:3] if not ctx.thorough else pins:
+        b = rng.choice([p for p in pins if p != a])
+        x = rng.choice([p for p in range(10000) if p not in (a, b)])
+        P, R, F = (lambda v: ("pin", v)), (lambda v: ("request", ("pin", v))), ("finish",)
+        junk = ("request", ("raw", "WRONG"))
+        seqs += [[P(a), R(x), P(b), R(a), F], [P(a), R(b), P(b), R(b), F], [P(a), junk, R(a), F, F],
+                 [P(a), P(b), R(a), F], [P(a), P(b), R(b), F], [P(a), R(a), P(b), R(x), F]]
+    for _ in range(ctx.scale(6, 40)):
+        vals = rng.sample(pins, 2) + [rng.randrange(10000)]
+        n = rng.randrange(3, 8)
+        seq = [("pin", rng.choice(vals))]
+        for _i in range(n):
+            r = rng.random()
+            seq.append(("pin", rng.choice(vals)) if r < 0.35 else ("finish",) if r < 0.5
+                       else ("request", ("raw", "WRONG")) if r < 0.6 else ("request", ("pin", rng.choice(vals))))
+        seqs.append(seq + [("finish",)])
+    for ops in seqs:
+        obs = run_one("dmap", prior, None, rng.fork(repr(ops)), ops=ops)
+        check_steps(ctx, "dmap", prior, ops, obs)
+        steps = obs.get("steps") or []
+        ctx.case(["seq", "dmap", [list(o) for o in ops]], True,
+                 sample={"handler": "dmap", "ops": [list(o) for o in ops], "status": [st.get("status") for st in steps]})
+        ctx.note("sequence:dmap")
+        words = ["p%d" % o[1] if o[0] == "pin" else "f" if o[0] == "finish"
+                 else ("r%d" % o[1][1] if o[1][0] == "pin" else "rx") for o in ops]
+        bits = "".join("1" if str(st.get("status", "")).split(" ")[1:2] == ["200"] else "0"
+                       for st in steps if st["op"][0] == "request")
+        last = steps[-1] if steps else {}
+        stored = bool(last) and last.get("svc") not in (obs.get("prior"),) and last.get("svc") == last.get("settings")
+        impl = "%d %d %s" % (bool(last.get("paired")), stored, bits or "-")
+        # the property itself on the sequence: a request is accepted iff its code is that of the PIN current then
+        cur, want = None, ""
+        for o in ops:
+            if o[0] == "pin":
+                cur = o[1]
+            elif o[0] == "request":
+                want += "1" if (cur is None or (o[1][0] == "pin" and o[1][1] == cur)) else "0"
+        if bits != want:
+            i = next(j for j in range(min(len(bits), len(want)) + 1) if bits[j:j + 1] != want[j:j + 1])
+            seq_fail(ctx, "dmap", prior, ops, "wrong-code-accepted" if bits[i:i + 1] == "1" else "right-code-refused",
+                     "request #%d answered %s, the code %s that of the PIN current at that time" %
+                     (i + 1, "200" if bits[i:i + 1] == "1" else "an error", "is not" if want[i:i + 1] == "0" else "is"), steps)
+        lines.append("dmapseq " + ",".join(words))
+        pending.append(("dmapseq", {"handler": "dmap", "ops": [list(o) for o in ops]}, impl))
 
 
 def replay(ctx, failure):
